@@ -429,14 +429,14 @@ Section Path.
   (* a definition numbered above everything `a` mentions is invisible from `a` *)
   Lemma unroll_weaken : forall st a n d, aref_le a (length st) -> n = S (length st) ->
     unroll ((n, d) :: st) a = unroll st a.
-  Proof.
+  Proof. clear kden evalv orc kval emits I e.
     intros st a n [[b k0] v0] Hle Hn. destruct a as [c|m]; cbn [unroll].
     - symmetry. apply unroll_empty.
     - cbn [aref_le] in Hle. destruct (m =? n)%nat eqn:E; [apply Nat.eqb_eq in E; lia | reflexivity].
   Qed.
   Lemma rooted_weaken : forall st a n d c, aref_le a (length st) -> n = S (length st) ->
     (rooted ((n, d) :: st) a c <-> rooted st a c).
-  Proof.
+  Proof. clear kden evalv orc kval emits I e.
     intros st a n [[b k0] v0] c Hle Hn. destruct a as [c'|m]; cbn [rooted].
     - destruct st as [|[m' [[b' k'] v']] rest]; cbn [rooted]; split; intro Hx; congruence.
     - cbn [aref_le] in Hle. destruct (m =? n)%nat eqn:E; [apply Nat.eqb_eq in E; lia | tauto].
@@ -586,7 +586,7 @@ Section Path.
   Proof. intros s c k v ax Hin. unfold pstore. destruct (cid_scalar c); cbn [p_path]; [|right]; exact Hin. Qed.
 
   Lemma pstore_wf : forall s c k v, pwf s -> pwf (pstore key val s c k v).
-  Proof.
+  Proof. clear emits_complete. clear kden evalv orc kval emits I e.
     intros s c k v W. unfold pstore. destruct (cid_scalar c) eqn:Sc.
     - constructor; cbn [p_storages p_mapping p_path].
       + exact (wf_st s W).
@@ -686,6 +686,222 @@ Lemma sol_emits_only_nonsymbolic : forall kv, sol_load_emits_empty true kv = fal
 Proof. intros [|]; reflexivity. Qed.
 Lemma gen_emits_only_nonsymbolic : forall kv, gen_load_emits_empty true kv = false.
 Proof. intros [|]; reflexivity. Qed.
+
+(* ---- the axioms never over-constrain: whatever the initial arrays are (symbolic storage),
+   or with all-zero initial arrays (non-symbolic storage), the path a run leaves has a model
+   that extends them.  So the soundness theorem is not vacuous, a non-symbolic run does not
+   make the path unsatisfiable, and symbolic initial storage stays unconstrained. *)
+Section PathSat.
+  Variables key val : Type.
+  Variable kden : env -> key -> Z.
+  Variable evalv : env -> val -> Z.
+  Variable orc : key -> key -> tri.
+  Variable kval : key -> bool.
+  Variable emits : bool -> bool -> bool.
+  Variable e : env.
+  Variable init : chunkid -> Z -> Z.
+
+  (* the interpretation the definitions force on top of `init` *)
+  Fixpoint Ival (st : pdefs key val) (a : aref) (i : Z) {struct st} : Z :=
+    match st with
+    | [] => match a with AEmpty c => init c i | AVar _ => 0 end
+    | (m, (base, k0, v0)) :: rest =>
+        match a with
+        | AEmpty c => init c i
+        | AVar n => if (n =? m)%nat then (if i =? kden e k0 then evalv e v0 else Ival rest base i)
+                    else Ival rest a i
+        end
+    end.
+
+  Lemma Ival_empty : forall st c i, Ival st (AEmpty c) i = init c i.
+  Proof. intros [|[m [[b k0] v0]] rest] c i; reflexivity. Qed.
+
+  Lemma Ival_weaken : forall st a n d i, aref_le a (length st) -> n = S (length st) ->
+    Ival ((n, d) :: st) a i = Ival st a i.
+  Proof.
+    clear orc kval emits.
+    intros st a n [[b k0] v0] i Hle Hn. destruct a as [c|m]; cbn [Ival].
+    - symmetry. apply Ival_empty.
+    - cbn [aref_le] in Hle. destruct (m =? n)%nat eqn:E; [apply Nat.eqb_eq in E; lia | reflexivity].
+  Qed.
+
+  Lemma pwf_st_in : forall st n b k v, pwf_st key val st -> In (n, (b, k, v)) st ->
+    (n <= length st)%nat /\ aref_le b (length st).
+  Proof.
+    clear orc kval emits.
+    induction st as [|[m [[b0 k0] v0]] rest IH]; intros n b k v W Hin; [destruct Hin|].
+    cbn [pwf_st] in W. destruct W as [Hm [Hb W]]. cbn [length]. destruct Hin as [Heq|Hin].
+    - inversion Heq; subst. split; [lia|]. destruct b as [c|x]; cbn [aref_le] in *; [exact Logic.I | lia].
+    - destruct (IH n b k v W Hin) as [H1 H2]. split; [lia|].
+      destruct b as [c|x]; cbn [aref_le] in *; [exact Logic.I | lia].
+  Qed.
+
+  Lemma Ival_defs : forall st, pwf_st key val st -> forall n b k v, In (n, (b, k, v)) st ->
+    forall i, Ival st (AVar n) i = if i =? kden e k then evalv e v else Ival st b i.
+  Proof.
+    clear orc kval emits.
+    induction st as [|[m [[b0 k0] v0]] rest IH]; intros W n b k v Hin i; [destruct Hin|].
+    pose proof W as W0. cbn [pwf_st] in W. destruct W as [Hm [Hb W]]. destruct Hin as [Heq|Hin].
+    - inversion Heq; subst n b0 k0 v0.
+      rewrite (Ival_weaken rest b m (b, k, v) i) by auto.
+      cbn [Ival]. rewrite Nat.eqb_refl. reflexivity.
+    - destruct (pwf_st_in rest n b k v W Hin) as [Hn Hb'].
+      rewrite (Ival_weaken rest (AVar n) m (b0, k0, v0) i) by (cbn [aref_le]; auto).
+      rewrite (Ival_weaken rest b m (b0, k0, v0) i) by auto.
+      apply IH; auto.
+  Qed.
+
+  (* the invariant of runs: additionally, every definition in the path is recorded in
+     ex.storages, and a symbolic account never gets an emptiness axiom *)
+  Record pinv (s : pstate key val) : Prop := {
+    inv_wf : pwf key val s;
+    inv_defs : forall n b k v, In (AxDef n b k v) (p_path key val s) -> In (n, (b, k, v)) (p_storages key val s);
+    inv_sym : p_symbolic key val s = true -> forall c k, ~ In (AxEmpty c k) (p_path key val s)
+  }.
+
+  Hypothesis emits_only_nonsymbolic : forall kv, emits true kv = false.
+
+  Lemma pload_inv : forall s c k, pinv s -> pinv (snd (pload key val orc kval emits s c k)).
+  Proof.
+    intros s c k [W D S]. constructor; [apply pload_wf; exact W | |]; unfold pload in *;
+      destruct (cid_scalar c); cbn [snd p_path p_storages p_symbolic]; auto.
+    - intros n b k0 v Hin. apply D. destruct (emits (p_symbolic key val s) (kval k)); [|exact Hin].
+      destruct Hin as [Heq|Hin]; [discriminate | exact Hin].
+    - intros Sy c' k'. rewrite Sy, emits_only_nonsymbolic. apply S. exact Sy.
+  Qed.
+
+  Lemma pstore_inv : forall s c k v, pinv s -> pinv (pstore key val s c k v).
+  Proof.
+    intros s c k v [W D S]. constructor; [apply pstore_wf; exact W | |]; unfold pstore in *;
+      destruct (cid_scalar c); cbn [p_path p_storages p_symbolic]; auto.
+    - intros n b k0 v0 [Heq|Hin]; [inversion Heq; subst; left; reflexivity | right; apply D; exact Hin].
+    - intros Sy c' k' [Heq|Hin]; [discriminate | exact (S Sy c' k' Hin)].
+  Qed.
+
+  Variable decode : loc -> res (chunkid * key).
+  Lemma prun_inv : forall ops s, pinv s -> pinv (snd (prun key val orc kval emits decode s ops)).
+  Proof.
+    induction ops as [|o ops IH]; intros s Hi; [exact Hi|].
+    destruct o as [l v|l]; cbn [prun]; destruct (decode l) as [d|c]; cbn [snd]; try exact Hi.
+    - apply IH. apply pstore_inv. exact Hi.
+    - apply IH. apply pload_inv. exact Hi.
+  Qed.
+
+  Lemma prun_symbolic : forall ops s,
+    p_symbolic key val (snd (prun key val orc kval emits decode s ops)) = p_symbolic key val s.
+  Proof.
+    induction ops as [|o ops IH]; intros s; [reflexivity|].
+    destruct o as [l v|l]; cbn [prun]; destruct (decode l) as [d|c]; cbn [snd]; try reflexivity.
+    - rewrite IH. apply pstore_symbolic.
+    - rewrite IH. apply pload_symbolic.
+  Qed.
+
+  Lemma path_model : forall s, pinv s ->
+    (forall c k, In (AxEmpty c k) (p_path key val s) -> init c (kden e k) = 0) ->
+    (forall c i, Ival (p_storages key val s) (AEmpty c) i = init c i) /\
+    (forall ax, In ax (p_path key val s) -> holds key val kden evalv (Ival (p_storages key val s)) e ax).
+  Proof.
+    intros s [W D S] H0. split; [intros; apply Ival_empty|].
+    intros [n b k v|c k] Hin; cbn [holds].
+    - intros i. apply Ival_defs; [exact (wf_st key val s W) | apply D; exact Hin].
+    - rewrite Ival_empty. apply H0. exact Hin.
+  Qed.
+End PathSat.
+
+Definition p_start (key val : Type) (sym : bool) : pstate key val :=
+  {| p_symbolic := sym; p_mapping := []; p_storages := []; p_path := [] |}.
+
+Lemma p_start_inv : forall key val sym, pinv key val (p_start key val sym).
+Proof.
+  intros. constructor; cbn.
+  - constructor; cbn; [exact Logic.I | intros c a [] | intros n b k v []].
+  - intros n b k v [].
+  - intros _ c k [].
+Qed.
+
+(* every run from an empty account: for all-zero initial arrays, and -- when the account's
+   storage is symbolic -- for ANY initial arrays, the final path has a model extending them *)
+Lemma path_run_has_model :
+  forall (key val : Type) (kden : env -> key -> Z) (evalv : env -> val -> Z) (orc : key -> key -> tri)
+         (kval : key -> bool) (emits : bool -> bool -> bool),
+    (forall kv, emits true kv = false) ->
+    forall (decode : loc -> res (chunkid * key)) (e : env) (sym : bool) (ops : list (op val))
+           (init : chunkid -> Z -> Z),
+      (sym = false -> forall c i, init c i = 0) ->
+      exists I : aref -> Z -> Z,
+        (forall c i, I (AEmpty c) i = init c i) /\
+        (forall ax, In ax (p_path key val (snd (prun key val orc kval emits decode (p_start key val sym) ops))) ->
+           holds key val kden evalv I e ax).
+Proof.
+  intros key val kden evalv orc kval emits Hem decode e sym ops init H0.
+  pose proof (prun_inv key val orc kval emits Hem decode ops _ (p_start_inv key val sym)) as Hi.
+  exists (Ival key val kden evalv e init (p_storages key val (snd (prun key val orc kval emits decode (p_start key val sym) ops)))).
+  apply path_model; [exact Hi|].
+  intros c k Hin. destruct sym.
+  - exfalso. refine (inv_sym _ _ _ Hi _ c k Hin).
+    rewrite (prun_symbolic key val orc kval emits decode). reflexivity.
+  - apply H0. reflexivity.
+Qed.
+
+(* ---- the statements of Props/C08.v about the path side, for the guards of either layout *)
+Definition code_guard (emits : bool -> bool -> bool) : Prop :=
+  emits = sol_load_emits_empty \/ emits = gen_load_emits_empty.
+
+Lemma code_guard_ok : forall emits, code_guard emits ->
+  (forall kv, emits false kv = true) /\ (forall kv, emits true kv = false).
+Proof.
+  intros emits [->| ->]; split.
+  - exact sol_emits_complete. - exact sol_emits_only_nonsymbolic.
+  - exact gen_emits_complete. - exact gen_emits_only_nonsymbolic.
+Qed.
+
+Lemma path_load_code :
+  forall (key val : Type) (kden : env -> key -> Z) (evalv : env -> val -> Z) (orc : key -> key -> tri)
+         (kval : key -> bool) (emits : bool -> bool -> bool) (I : aref -> Z -> Z) (e : env),
+    emits = sol_load_emits_empty \/ emits = gen_load_emits_empty ->
+    forall (s : pstate key val) (c : chunkid) (k : key), pwf key val s ->
+      (forall ax, In ax (p_path key val (snd (pload key val orc kval emits s c k))) -> holds key val kden evalv I e ax) ->
+      evalp key val kden evalv I e (fst (pload key val orc kval emits s c k)) =
+      evalr key val kden evalv (fun c i => I (AEmpty c) i) e (p_symbolic key val s) (load key val orc (abs key val s) c k).
+Proof.
+  intros key val kden evalv orc kval emits I e Hg s c k W Hp.
+  exact (path_load_sound key val kden evalv orc kval emits I e (proj1 (code_guard_ok emits Hg)) s c k W Hp).
+Qed.
+
+Lemma path_seq_code :
+  forall (key val : Type) (kden : env -> key -> Z) (evalv : env -> val -> Z) (orc : key -> key -> tri)
+         (kval : key -> bool) (emits : bool -> bool -> bool) (adm : env -> Prop),
+    emits = sol_load_emits_empty \/ emits = gen_load_emits_empty ->
+    (forall a b, orc a b = MustEq -> forall e, adm e -> kden e a = kden e b) ->
+    (forall a b, orc a b = MustNeq -> forall e, adm e -> kden e a <> kden e b) ->
+    forall (H : Z -> Z -> Z) (decode : loc -> res (chunkid * key)) (e : env) (fam : list loc) (ops : list (op val)),
+      adm e -> faithful_on key kden H decode e fam ->
+      (forall o, In o ops -> In (op_loc val o) fam) ->
+      forall I : aref -> Z -> Z,
+        (forall ax, In ax (p_path key val (snd (prun key val orc kval emits decode (p_empty key val) ops))) ->
+           holds key val kden evalv I e ax) ->
+        map (evalp key val kden evalv I e) (fst (prun key val orc kval emits decode (p_empty key val) ops)) =
+        ref_run H e val evalv fempty ops.
+Proof.
+  intros key val kden evalv orc kval emits adm Hg Oe On.
+  exact (path_seq_from_empty key val kden evalv orc kval emits adm Oe On (proj1 (code_guard_ok emits Hg))).
+Qed.
+
+Lemma path_model_code :
+  forall (key val : Type) (kden : env -> key -> Z) (evalv : env -> val -> Z) (orc : key -> key -> tri)
+         (kval : key -> bool) (emits : bool -> bool -> bool),
+    emits = sol_load_emits_empty \/ emits = gen_load_emits_empty ->
+    forall (decode : loc -> res (chunkid * key)) (e : env) (sym : bool) (ops : list (op val))
+           (init : chunkid -> Z -> Z),
+      (sym = false -> forall c i, init c i = 0) ->
+      exists I : aref -> Z -> Z,
+        (forall c i, I (AEmpty c) i = init c i) /\
+        (forall ax, In ax (p_path key val (snd (prun key val orc kval emits decode (p_start key val sym) ops))) ->
+           holds key val kden evalv I e ax).
+Proof.
+  intros key val kden evalv orc kval emits Hg.
+  exact (path_run_has_model key val kden evalv orc kval emits (proj2 (code_guard_ok emits Hg))).
+Qed.
 
 (* ================================================================== concrete instances (real Keccak) *)
 (* stored values are plain numbers; keys denote concat(keys) under the real hash *)
@@ -863,3 +1079,18 @@ Lemma generic_hash_key_witness :
   decode_gen precomputed reg_empty env0 FUEL (Sha512 (Sha256 (K 2)) (K 0)) = Ok (1026, 2 * 2 ^ 770) /\
   decode_gen precomputed reg_empty env0 FUEL (Sha256 (Sha512 (K 2) (K 0))) = Ok (1026, 2 * 2 ^ 770).
 Proof. split; [vm_compute; discriminate|]. split; vm_compute; reflexivity. Qed.
+
+(* ================================================================== the undecided store *)
+(* m[v0] = 7 (m at slot 1), then a load of m[5], the solver not deciding v0 = 5: select stops
+   at the store and the load returns Select(<array variable 1>, key 5); its value for
+   v0 <> 5 comes from the two axioms the run left in the path *)
+Definition orc_unknown (a b : list kt) : tri := Unknown.
+Definition key_m (t : loc) : list kt := [KW [t]; KW [K 0]].
+Lemma undecided_example :
+  sol_prun Z orc_unknown reg_empty (p_empty (list kt) Z)
+    [OStore (Sha512 (V 0) (K 1)) 7; OLoad (Sha512 (K 5) (K 1))] =
+  ([PSelect (AVar 1) (key_m (K 5))],
+   {| p_symbolic := false; p_mapping := [((1, 2, 512), PArr (AVar 1))];
+      p_storages := [(1%nat, (AEmpty (1, 2, 512), key_m (V 0), 7))];
+      p_path := [AxEmpty (1, 2, 512) (key_m (K 5)); AxDef 1 (AEmpty (1, 2, 512)) (key_m (V 0)) 7] |}).
+Proof. vm_compute. reflexivity. Qed.
